@@ -418,10 +418,60 @@ def run_lost_probe(case):
     return classify_out(out, "get"), out
 
 
+def run_tail_tamper(case):
+    """A genuine, correctly sealed large reply (captured on the wire, say) with one octet changed at a given offset:
+    the MAC covers the whole message, so it must be dropped wherever the change is."""
+    mod, fast = drivers.subject()
+    cfg = Cfg.from_desc(case["cfg"])
+    w = drivers.SplitWorld(cfg)
+    try:
+        o = w.send("get", rb.oid_str(SYS))
+        req = drivers.open_request(cfg, w.take_request(), strict=False, check_mac=False)
+        genuine = drivers.reply_for(cfg, req, [(SYS, rb.enc_octets(b"G" * case["n"]))])
+        worst = "skipped"
+        for off in case["offsets"]:
+            pos = off if off >= 0 else len(genuine) + off
+            if not 0 <= pos < len(genuine):
+                continue
+            r = rb.parse_message(genuine, strict=False)
+            if r.auth_off <= pos < r.auth_off + 12:
+                continue
+            t = genuine[:pos] + bytes([genuine[pos] ^ 0x20]) + genuine[pos + 1 :]
+            w.inject(t)
+            out = w.recv("get")
+            c = classify_out(out, "get")
+            if out.kind == "ok":
+                return "delivered-tampered@%d" % pos, out
+            if out.kind == "exc" and out.is_panic():
+                return "panic", out
+            w.flush_client_queue()
+        w.inject(genuine)
+        out = w.recv("get")
+        if not (out.kind == "ok" and out.value == b"G" * case["n"]):
+            return "genuine-lost", out
+        return worst, None
+    finally:
+        w.close()
+
+
 def work_routes(chunk):
     res = common.Result()
     for case in chunk:
         cfg = Cfg.from_desc(case["cfg"])
+        if case["kind"] == "tail-tamper":
+            c1, out = run_tail_tamper(case)
+            res.count("forgeries", len(case["offsets"]))
+            res.count("api_calls", len(case["offsets"]) + 2)
+            res.distinct(len(case["offsets"]))
+            res.outcome(c1.split("@")[0])
+            sig = "tampered-genuine/%s-%s/%d-octet-value" % (drivers.AUTH_NAMES[cfg.auth], drivers.PRIV_NAMES[cfg.priv], case["n"])
+            if c1.startswith("delivered-tampered"):
+                res.violation("accepted-forgery/" + sig, "a correctly sealed reply with one octet changed at offset %s was delivered" % c1.split("@")[1], case)
+            elif c1 == "genuine-lost":
+                res.violation("dropped-authentic/" + sig, "the untouched reply was not delivered: %r" % (out.brief() if out else None,), case)
+            elif c1 == "panic":
+                res.violation("panic/" + sig, "tampered reply raised %s" % out.exc_name, case)
+            continue
         if case["kind"] == "route":
             c1, out = run_route(case)
             sig = "guessable-key/%s/report-eid-%s/%s-%s/key=%s%s" % (case["route"], case["report_eid"], drivers.AUTH_NAMES[cfg.auth], drivers.PRIV_NAMES[cfg.priv], case["key"], "/encrypted" if case["encrypt"] and cfg.priv else "")
@@ -463,6 +513,12 @@ def gen_routes(tier):
         for auth, priv in ((1, 0), (2, 0), (2, 2)):
             cfg = Cfg("v3", auth=auth, priv=priv, discover=True)
             yield {"kind": "lost-probe", "driver": driver, "cfg": cfg.describe()}
+    # genuine replies of growing size with one octet changed at offsets spread over the whole datagram
+    for auth, priv in ((1, 0), (2, 0), (1, 1), (2, 2)):
+        cfg = Cfg("v3", auth=auth, priv=priv)
+        for n in (10, 900, 1950, 2100, 3000, 3900):
+            offs = sorted(set([5, 20, 60, 100] + list(range(120, n + 100, max(1, n // 12))) + [-1, -2, -9, -17, -40, -100]))
+            yield {"kind": "tail-tamper", "cfg": cfg.describe(), "n": n, "offsets": offs}
 
 
 def gen_cases(tier):
@@ -500,6 +556,8 @@ def replay(case):
         return {"outcome": run_route(case)[0]}
     if case.get("kind") == "lost-probe":
         return {"outcome": run_lost_probe(case)[0]}
+    if case.get("kind") == "tail-tamper":
+        return {"outcome": run_tail_tamper(case)[0]}
     out1, out2 = run_case(case, {})
     return {"forgery": classify_out(out1, case["op"]), "genuine": classify_out(out2, case["op"])}
 
@@ -513,7 +571,7 @@ def run(tier):
     rec = common.Recorder(PROPERTY, tier, LEVEL, MODULE)
     rec.rule = (
         "otherwise-matching reply x MAC in {valid, zero, random, wrong key, absent, short, long, each of the 96 single-bit flips, octet pairs / triples whose differences cancel under XOR or sum} x auth flag x priv flag (ciphertext / plaintext) x "
-        "{GetResponse, Report} x {MD5,SHA1} x {none,DES,AES} x pending operation, each followed by the genuine reply; after engine-id discovery by 4 routes (socket created without engine id / set_keys after discovery x Report carrying the real or an EMPTY engine id; keys installed while a request sent under the anonymous user is in flight, then a reply with msgFlags 0; a refused set_keys on a session holding keys, then a reply under a guessable key) "
+        "{GetResponse, Report} x {MD5,SHA1} x {none,DES,AES} x pending operation, each followed by the genuine reply; after engine-id discovery by 4 routes (socket created without engine id / set_keys after discovery x Report carrying the real or an EMPTY engine id; keys installed while a request sent under the anonymous user is in flight, then a reply with msgFlags 0; a refused set_keys on a session holding keys, then a reply under a guessable key; genuine replies of 10..3900-octet values with one octet changed at offsets spread over the datagram) "
         "a reply authenticated (and encrypted) under each key anybody can compute {all-zero, zero master localized to the engine id / to the empty id, user name}; public clients with the first discovery datagram lost, "
         "refresh retried, then a reply with msgFlags 0. Non-trivial: every case (all are distinct forgeries)."
     )
